@@ -165,6 +165,16 @@ func init() {
 				if !yield(C16Case{Part: "unknown-key", Path: p[:len(p)-1], Inject: p[len(p)-1], Kind: "misspelt:" + lf.Kind}) {
 					return
 				}
+				// the key in another letter case is another key
+				k := lf.Path[len(lf.Path)-1]
+				for _, v := range []string{strings.ToUpper(k[:1]) + k[1:], strings.ToUpper(k)} {
+					if v == k {
+						continue
+					}
+					if !yield(C16Case{Part: "unknown-key", Path: lf.Path[:len(lf.Path)-1], Inject: v, Kind: "case:" + lf.Kind}) {
+						return
+					}
+				}
 			}
 			envs := []struct {
 				env  map[string]string
